@@ -1,5 +1,5 @@
 CONSTANTS
-  ColSet = {2}
+  ColSet = {2, 3}
   XMax = 8
   YMax = 16
 SPECIFICATION Spec
